@@ -1077,6 +1077,59 @@ def findings(ctx, model):
     ctx.known_finding("metric-blockarray", False)
 
 
+def search(ctx, model, why):
+    """failing-input search.  After a broken generated obligation (`why` names the module) the table rows of the working tree
+    that differ from the pinned ones are determined and the streams that exercise exactly those functions are re-run with a
+    doubled budget as a targeted panel (oracle: implementation vs the independent documented formula).  Without `why`
+    (thorough tier): no separate search - every stream of correspond() already carries the formula oracle."""
+    if why is None:
+        return None
+    import proxcalc_translate
+
+    scico = common.setup_scico()
+    rows = proxcalc_translate.differing_rows()
+    ctx.extra["differing_table_rows"] = rows
+    S = {
+        "base": lambda c: run_base(c, model, scico), "tiny": lambda c: run_tiny(c, model, scico), "huber": lambda c: run_huber_history(c, model, scico),
+        "l21": lambda c: run_l21_axes(c, model, scico), "l21x": lambda c: run_l21_exhaustive(c, model, scico), "l21c": lambda c: run_l21_call(c, model, scico),
+        "nuclear": lambda c: run_nuclear(c, model, scico), "dist": lambda c: run_dist(c, model, scico), "tv": lambda c: run_tv(c, model, scico),
+        "tvh": lambda c: run_tv_history(c, model, scico), "proxavg": lambda c: run_proxavg(c, model, scico), "losses": lambda c: run_losses(c, model, scico),
+        "lossb": lambda c: run_losses_block(c, model, scico), "unit": lambda c: run_unit_factor(c, scico), "trees": lambda c: run_trees(c, model, scico),
+        "metrics": lambda c: run_metrics(c, model, scico),
+    }
+    pick = []
+    for r in rows:
+        cls = r.split(".")[0]
+        if cls in ("L0Norm", "L1Norm", "SquaredL2Norm", "L2Norm", "L1MinusL2Norm", "NonNegativeIndicator", "L2BallIndicator"):
+            pick += ["base", "tiny"]
+        elif cls == "HuberNorm":
+            pick += ["base", "huber"]
+        elif cls == "L21Norm":
+            pick += ["l21x", "l21", "l21c", "base", "tiny"]
+        elif cls == "NuclearNorm":
+            pick += ["nuclear"]
+        elif cls in ("SetDistance", "SquaredSetDistance"):
+            pick += ["dist"]
+        elif cls == "TVNorm":
+            pick += ["tv", "tvh"]
+        elif cls == "ProximalAverage":
+            pick += ["proxavg"]
+        elif cls in ("SquaredL2Loss", "SquaredL2AbsLoss", "SquaredL2SquaredAbsLoss", "PoissonLoss"):
+            pick += ["losses", "lossb", "unit", "trees"]
+        elif cls in ("ScaledFunctional", "SeparableFunctional", "FunctionalSum", "ZeroFunctional", "Loss", "Functional"):
+            pick += ["trees", "unit"]
+        elif cls == "metric":
+            pick += ["metrics"]
+    if not pick:
+        pick = list(S)  # flag logic / class lists: everything
+    seen, order = set(), []
+    for k_ in pick:
+        if k_ not in seen:
+            seen.add(k_)
+            order.append(S[k_])
+    return G.panel(ctx, order, rows)
+
+
 def replay(ctx, model, case):
     """re-evaluate the property oracle (implementation vs independent numpy formula) at the recorded case"""
     scico = common.setup_scico()
